@@ -58,6 +58,7 @@ func main() {
 				sum, _ := i.Eval("Sum")
 				inc, _ := i.Eval("Inc")
 				pair, _ := i.Eval("Pair")
+				apply, _ := i.Eval("Apply")
 				var wg sync.WaitGroup
 				for k := 0; k < 4; k++ {
 					wg.Add(1)
@@ -67,6 +68,7 @@ func main() {
 						sum.Call([]reflect.Value{reflect.ValueOf(k), reflect.ValueOf(k + 4)})
 						inc.Call(nil)
 						pair.Call([]reflect.Value{reflect.ValueOf(k)})
+						apply.Call([]reflect.Value{reflect.ValueOf(k)})
 					}(k)
 				}
 				wg.Wait()
